@@ -32,6 +32,8 @@ def check(ctx, R):
         _pull(ctx, R, roles, T)
         _pull_public(ctx, R, roles, T)
         buffer_access(ctx, R, roles)
+        from .c10 import _nd_own as early_reply_rules      # file data that overtakes the OKAY for the RECV request is part of the file
+        early_reply_rules(ctx, R, roles, T)
     _txinfo(ctx, R, T)
     from .c03 import _read_exact as read_exact_rules, _packet_reader as packet_reader_rules
     for roles in all_roles(ctx):
@@ -255,7 +257,7 @@ def record_reader(ctx, R, roles, T, rule="REC"):
             elif rt0[0] == "tuple":
                 # the same decision taken element by element: (id, fields-if-c-else-fields', data-if-c-else-data')
                 conds = set(x[1] for x in rt0[1:] if x[0] == "ite")
-                if len(conds) == 1:
+                if len(conds) == 1 and sum(1 for x in rt0[1:] if x[0] == "ite") >= 2:
                     c_ = next(iter(conds))
                     pick = lambda arm: ("tuple",) + tuple((x[2] if arm else x[3]) if x[0] == "ite" else x for x in rt0[1:])   # noqa: E731
                     cases = [(pick(True), (c_, True)), (pick(False), (c_, False))]
